@@ -120,7 +120,15 @@ def generate(prop, seed, tier='quick'):
             for _ in range(rng.randint(1, 4))
         ]
         actors.append({'name': 'r0', 'role': 'reader', 'ops': rops, 'fresh': False, 'warm': True, 'linger': True})
-    actors.append({'name': 'b', 'role': 'backup', 'ops': [{'auto': rng.random() < 0.6} for _ in range(rng.choice([1, 1, 2]))], 'keep': rng.choice([None, 0, 1])})
+    actors.append(
+        {
+            'name': 'b',
+            'role': 'backup',
+            'ops': [{'auto': rng.random() < 0.6} for _ in range(rng.choice([1, 1, 2]))],
+            'keep': rng.choice([None, 0, 1]),
+            'warm': rng.random() < 0.5,
+        }
+    )
     return {
         'engine': 'U',
         'prop': prop,
@@ -243,6 +251,10 @@ def execute(case):  # pylint: disable=too-many-locals,too-many-statements,too-ma
                         cont = lib.Container(side.folder)
                         try:
                             manager = manager_cls(dest=dest, keep=spec.get('keep'))
+                            if spec.get('warm'):
+                                # the client that takes the backup has used its handle before (its operation session
+                                # then holds a read snapshot of the index as of this query)
+                                cont.count_objects()
                             for i, bop in enumerate(spec['ops']):
                                 must_have = dict(shared.acked)
                                 state['in_backup'] = True
